@@ -24,7 +24,7 @@ Proof. intros -> -> ->. apply annotate_node. Qed.
 
 Ltac norm_app := repeat first [rewrite <- app_assoc | progress cbn [app]]; try reflexivity.
 Ltac len_eq :=
-  repeat first [rewrite app_length | progress cbn [length]];
+  repeat first [rewrite app_length | progress cbn [length]]; unfold char, str;
   change (length s_while) with 6%nat; change (length s_if) with 3%nat; change (length s_done) with 4%nat;
   change (length s_fi) with 2%nat; change (length s_else) with 4%nat; change (length s_for) with 4%nat;
   change (length s_in) with 4%nat; try lia.
@@ -502,12 +502,14 @@ with frag_stmt (s : stmt) : bool :=
   | SCont [] => true
   | SIf [] false cond body rest => cond_ok cond && nonempty_block body && frag_block body && frag_arms rest
   | SWhile [] false cond body => cond_ok cond && nonempty_block body && frag_block body
+  | SFor [] false var words body => wfp_var var && cond_ok words && nonempty_block body && frag_block body
   | _ => false
   end
 with frag_arms (a : arms) : bool :=
   match a with
   | ANone [] => true
   | AElse [] body [] => nonempty_block body && frag_block body
+  | AElif [] false cond body rest => cond_ok cond && nonempty_block body && frag_block body && frag_arms rest
   | _ => false
   end.
 
@@ -557,7 +559,412 @@ Lemma tree_ifelse_eq cond body body2 :
   ifelse_tree cond (render_block body) (render_block body2) (kids_of_block body) (kids_of_block body2).
 Proof. reflexivity. Qed.
 
-(** ---- induction over the syntax tree ---- *)
+(** ================= for v in words NL body done NL ================= *)
+From Coq Require Import ZifyBool.
+
+Definition IDS : pexp := PAlt (PAlt (PRange 97 122) (PRange 65 90)) (PStr [95]).
+Definition IDC : pexp := PAlt (PAlt (PRange 48 57) (PAlt (PRange 97 122) (PRange 65 90))) (PStr [95]).
+
+Lemma under_fail c r : (c =? 95) = false -> strip_prefix [95] (c :: r) = None.
+Proof. intro H. cbn [strip_prefix]. rewrite N.eqb_sym, H. reflexivity. Qed.
+Lemma under_ok c r : (c =? 95) = true -> strip_prefix [95] (c :: r) = Some r.
+Proof. intro H. cbn [strip_prefix]. rewrite N.eqb_sym, H. reflexivity. Qed.
+
+Lemma idc_ok pos c r : is_alnum_us c = true -> evals l_grammar IDC AtAtomic pos (c :: r) (POk (S pos) r []).
+Proof.
+  intro H. unfold is_alnum_us, is_digit, is_alpha in H. unfold IDC.
+  destruct ((48 <=? c) && (c <=? 57)) eqn:D; [apply evals_alt_l, evals_alt_l, evals_range_ok, D|].
+  destruct ((97 <=? c) && (c <=? 122)) eqn:L.
+  { apply evals_alt_l. apply evals_alt_r; [apply evals_range_fail, D|]. apply evals_alt_l, evals_range_ok, L. }
+  destruct ((65 <=? c) && (c <=? 90)) eqn:U.
+  { apply evals_alt_l. apply evals_alt_r; [apply evals_range_fail, D|].
+    apply evals_alt_r; [apply evals_range_fail, L|]. apply evals_range_ok, U. }
+  cbn [orb] in H.
+  apply evals_alt_r.
+  { apply evals_alt_r; [apply evals_range_fail, D|]. apply evals_alt_r; [apply evals_range_fail, L | apply evals_range_fail, U]. }
+  replace (S pos) with (pos + length [95%N])%nat by (cbn; lia). apply evals_str_ok, under_ok, H.
+Qed.
+
+Lemma ids_ok pos c r : is_alpha c || (c =? 95) = true -> evals l_grammar IDS AtAtomic pos (c :: r) (POk (S pos) r []).
+Proof.
+  intro H. unfold is_alpha in H. unfold IDS.
+  destruct ((97 <=? c) && (c <=? 122)) eqn:L; [apply evals_alt_l, evals_alt_l, evals_range_ok, L|].
+  destruct ((65 <=? c) && (c <=? 90)) eqn:U.
+  { apply evals_alt_l. apply evals_alt_r; [apply evals_range_fail, L | apply evals_range_ok, U]. }
+  cbn [orb] in H.
+  apply evals_alt_r; [apply evals_alt_r; [apply evals_range_fail, L | apply evals_range_fail, U]|].
+  replace (S pos) with (pos + length [95%N])%nat by (cbn; lia). apply evals_str_ok, under_ok, H.
+Qed.
+
+Lemma idc_stop pos r : evals l_grammar IDC AtAtomic pos (32 :: r) PFail.
+Proof. apply (evals_of_ev l_grammar 6); [reflexivity|discriminate]. Qed.
+
+Lemma ident_tail : forall t pos rest, forallb is_alnum_us t = true ->
+  evals l_grammar (PRepTail IDC) AtAtomic pos (t ++ 32 :: rest) (POk (pos + length t) (32 :: rest) []).
+Proof.
+  induction t as [|c t IH]; intros pos rest H.
+  - cbn [app length]. rewrite Nat.add_0_r. eapply evals_reptail_stop; [apply evals_skip_atomic | apply idc_stop].
+  - cbn [forallb] in H. apply andb_prop in H as [Hc Ht]. cbn [app length].
+    replace (pos + S (length t))%nat with (S pos + length t)%nat by lia.
+    change (@nil tree) with ([] ++ [] ++ @nil tree)%list.
+    eapply evals_reptail_step; [apply evals_skip_atomic | apply idc_ok, Hc | lia | apply IH, Ht].
+Qed.
+
+Lemma for_var_parses pos var rest : wfp_var var = true ->
+  EV (PRef L_FOR_VAR) AtNon pos (var ++ 32 :: rest) (POk (pos + length var) (32 :: rest) [Node L_FOR_VAR pos (pos + length var) []]).
+Proof.
+  intro H. destruct var as [|c t]; [discriminate|]. cbn [wfp_var] in H. apply andb_prop in H as [Hc Ht].
+  eapply evals_ref_atomic_ok; [reflexivity|].
+  cbn [app length]. replace (pos + S (length t))%nat with (S pos + length t)%nat by lia.
+  eapply evals_seq_ok; [apply ids_ok, Hc | apply evals_skip_atomic |].
+  destruct t as [|c2 t2].
+  - cbn [app length]. rewrite Nat.add_0_r. apply evals_rep_none, idc_stop.
+  - cbn [forallb] in Ht. apply andb_prop in Ht as [Hc2 Ht2]. cbn [app length].
+    replace (S pos + S (length t2))%nat with (S (S pos) + length t2)%nat by lia.
+    change (@nil tree) with ([] ++ @nil tree)%list.
+    eapply evals_rep_some; [apply idc_ok, Hc2 | apply ident_tail, Ht2].
+Qed.
+
+Lemma alnum_not_ws c : is_alnum_us c = true -> is_ws c = false.
+Proof. unfold is_alnum_us, is_digit, is_alpha, is_ws. intro H. lia. Qed.
+
+Lemma var_trim var : wfp_var var = true -> trim var = var.
+Proof.
+  intro H. destruct var as [|c t]; [discriminate|]. cbn [wfp_var] in H. apply andb_prop in H as [Hc Ht].
+  assert (Hc' : is_alnum_us c = true) by (unfold is_alnum_us; apply orb_prop in Hc as [Hc|Hc]; rewrite Hc; lia).
+  apply trim_self.
+  - cbn. rewrite (alnum_not_ws c Hc'). reflexivity.
+  - unfold ends_nonws. destruct (rev (c :: t)) as [|x xs] eqn:E.
+    + apply (f_equal (@rev char)) in E. rewrite rev_involutive in E. discriminate.
+    + assert (In x (c :: t)) by (apply in_rev; rewrite E; left; reflexivity).
+      assert (is_alnum_us x = true).
+      { destruct H as [<-|Hin]; [exact Hc'|]. rewrite forallb_forall in Ht. apply Ht, Hin. }
+      rewrite (alnum_not_ws x); [reflexivity|assumption].
+Qed.
+
+Lemma for_head_parses pos var words rest : wfp_var var = true -> cond_ok words = true ->
+  let p1 := (pos + 4)%nat in let p2 := (p1 + length var)%nat in
+  let p3 := (p2 + 4)%nat in let p4 := (p3 + length words)%nat in
+  EV (PRef L_FOR_HEAD) AtNon pos (s_for ++ var ++ s_in ++ words ++ 10 :: rest)
+     (POk (S p4) rest
+        [Node L_FOR_HEAD pos (S p4) [Node L_FOR_INIT p1 (S p4) [Node L_FOR_VAR p1 p2 []; Node L_TEST p3 p4 []]]]).
+Proof.
+  intros Hv Hw p1 p2 p3 p4.
+  replace (s_for ++ var ++ s_in ++ words ++ 10 :: rest)
+    with (s_for ++ (var ++ 32 :: ([105; 110] ++ ([32] ++ (words ++ 10 :: rest))))) by (unfold s_in; norm_app).
+  eapply evals_ref_normal_ok; [reflexivity | reflexivity |].
+  change [Node L_FOR_INIT p1 (S p4) [Node L_FOR_VAR p1 p2 []; Node L_TEST p3 p4 []]]
+    with ([] ++ [] ++ [Node L_FOR_INIT p1 (S p4) [Node L_FOR_VAR p1 p2 []; Node L_TEST p3 p4 []]])%list.
+  eapply evals_seq_ok; [ref_s; apply evals_str_ok, strip_prefix_app_some | |].
+  - apply skip_none. destruct var as [|c t]; [discriminate|]. cbn [wfp_var] in Hv. apply andb_prop in Hv as [Hc _].
+    cbn. apply blank_ws, alnum_not_ws. unfold is_alnum_us. apply orb_prop in Hc as [Hc|Hc]; rewrite Hc; lia.
+  - change (pos + length s_for)%nat with p1.
+    eapply evals_ref_normal_ok; [reflexivity | reflexivity |].
+    change [Node L_FOR_VAR p1 p2 []; Node L_TEST p3 p4 []]
+      with ([Node L_FOR_VAR p1 p2 []] ++ [] ++ ([] ++ [] ++ ([Node L_TEST p3 p4 []] ++ [] ++ [])))%list.
+    eapply evals_seq_ok; [apply for_var_parses, Hv | |].
+    + replace (32 :: [105; 110] ++ [32] ++ words ++ 10 :: rest) with ([32] ++ ([105; 110] ++ [32] ++ words ++ 10 :: rest)) by reflexivity.
+      apply skip_blanks; reflexivity.
+    + eapply evals_seq_ok; [apply evals_str_ok, strip_prefix_app_some | |].
+      * apply skip_blanks; [reflexivity | apply cond_starts, Hw].
+      * match goal with |- evals _ _ _ ?p _ _ => replace p with p3 by (unfold p3, p2; cbn [length]; lia) end.
+        eapply evals_seq_ok; [apply test_parses, Hw | apply skip_none; reflexivity | apply then_do_fail].
+Qed.
+
+Definition for_text (var words body : str) : str := s_for ++ var ++ s_in ++ words ++ 10 :: body ++ s_done ++ [10].
+Definition for_tree (var words body : str) (btt : list ttree) : ttree :=
+  TNode L_EXP_FOR (s_for ++ var ++ s_in ++ words ++ 10 :: body ++ s_done)
+    [TNode L_FOR_HEAD (trim (s_for ++ var ++ s_in ++ words ++ [10]))
+       [TNode L_FOR_INIT (trim (var ++ s_in ++ words ++ [10])) [TNode L_FOR_VAR var []; TNode L_TEST words []]];
+     TNode L_EXP_BODY (trim body) btt].
+
+Lemma for_block pre var words body rest btt :
+  wfp_var var = true -> cond_ok words = true ->
+  starts_blank (body ++ s_done ++ 10 :: rest) = false ->
+  parsed (PRef L_EXP_BODY) (pre ++ s_for ++ var ++ s_in ++ words ++ [10]) body (s_done ++ 10 :: rest) [TNode L_EXP_BODY (trim body) btt] ->
+  parsed (PRef L_EXP_FOR) pre (for_text var words body) rest [for_tree var words body btt].
+Proof.
+  intros Hv Hw Hsb [Tb [EVb Ab]]. unfold for_text.
+  set (src := pre ++ (s_for ++ var ++ s_in ++ words ++ 10 :: body ++ s_done ++ [10]) ++ rest).
+  assert (Hsrc : (pre ++ s_for ++ var ++ s_in ++ words ++ [10]) ++ body ++ s_done ++ 10 :: rest = src) by (unfold src; norm_app).
+  rewrite Hsrc in Ab.
+  replace (length (pre ++ s_for ++ var ++ s_in ++ words ++ [10]))
+    with (S (length pre + 4 + length var + 4 + length words)) in EVb by len_eq.
+  eexists. split.
+  - eapply evals_ref_normal_ok; [reflexivity | reflexivity |].
+    replace ((s_for ++ var ++ s_in ++ words ++ 10 :: body ++ s_done ++ [10]) ++ rest)
+      with (s_for ++ var ++ s_in ++ words ++ 10 :: body ++ s_done ++ 10 :: rest) by norm_app.
+    eapply evals_seq_ok; [apply opt_soi | apply skip_none; reflexivity |].
+    eapply evals_seq_ok; [apply for_head_parses; assumption | apply skip_none, Hsb |].
+    eapply evals_seq_ok; [exact EVb | apply skip_none; reflexivity |].
+    replace (length pre + length (s_for ++ var ++ s_in ++ words ++ (10%N :: body ++ s_done ++ [10%N])))%nat
+      with (S (length pre + 4 + length var + 4 + length words) + length body + 5)%nat by len_eq.
+    apply kw_done_ok.
+  - cbn [map app]. fold src.
+    rewrite (annotate_node_eq pre (s_for ++ var ++ s_in ++ words ++ 10 :: body ++ s_done ++ [10]) rest) by first [solve [reflexivity] | solve [len_eq]].
+    unfold for_tree. f_equal. f_equal.
+    + replace (s_for ++ var ++ s_in ++ words ++ 10 :: body ++ s_done ++ [10])
+        with ((s_for ++ var ++ s_in ++ words ++ 10 :: body ++ s_done) ++ [10]) by norm_app.
+      apply trim_line; [reflexivity|].
+      replace (s_for ++ var ++ s_in ++ words ++ 10 :: body ++ s_done)
+        with ((s_for ++ var ++ s_in ++ words ++ 10 :: body) ++ [100; 111; 110] ++ [101]) by norm_app.
+      apply ends_nonws_app. reflexivity.
+    + cbn [map app]. rewrite ?app_nil_r. fold src. rewrite Ab. f_equal.
+      rewrite (annotate_node_eq pre (s_for ++ var ++ s_in ++ words ++ [10]) (body ++ s_done ++ 10 :: rest)) by first [solve [unfold src; norm_app] | solve [len_eq]].
+      f_equal. cbn [map]. f_equal.
+      rewrite (annotate_node_eq (pre ++ s_for) (var ++ s_in ++ words ++ [10]) (body ++ s_done ++ 10 :: rest)) by first [solve [unfold src; norm_app] | solve [len_eq]].
+      f_equal. cbn [map]. f_equal; [|f_equal].
+      * rewrite (annotate_node_eq (pre ++ s_for) var (s_in ++ words ++ 10 :: body ++ s_done ++ 10 :: rest)) by first [solve [unfold src; norm_app] | solve [len_eq]].
+        rewrite var_trim by exact Hv. reflexivity.
+      * rewrite (annotate_node_eq (pre ++ s_for ++ var ++ s_in) words (10 :: body ++ s_done ++ 10 :: rest)) by first [solve [unfold src; norm_app] | solve [len_eq]].
+        rewrite trim_cond by exact Hw. reflexivity.
+Qed.
+
+(** ================= else-if arms: a repetition whose items parse only before a stop text ================= *)
+Section ItemsR.
+Variable A : pexp.
+Variable R : str -> Prop.   (* what the text after an item must satisfy for the item to parse *)
+
+Definition itemR_ok (text : str) (tt : ttree) : Prop :=
+  (forall rest, starts_blank (text ++ rest) = false) /\ text <> [] /\
+  forall pre rest, R rest -> parsed A pre text rest [tt].
+Definition itemsR_ok (items : list (str * ttree)) : Prop :=
+  Forall (fun it => itemR_ok (fst it) (snd it)) items.
+Fixpoint Rs (items : list (str * ttree)) (rest : str) : Prop :=
+  R (cat items ++ rest) /\ match items with [] => True | _ :: r => Rs r rest end.
+
+Lemma Rs_head r rest : Rs r rest -> R (cat r ++ rest).
+Proof. destruct r; intros [h _]; exact h. Qed.
+
+Lemma catR_start items rest : itemsR_ok items -> starts_blank rest = false -> starts_blank (cat items ++ rest) = false.
+Proof.
+  intros H Hr. destruct items as [|[t tt] r]; [exact Hr|]. inversion H as [|x l [Hs _] _]; subst.
+  cbn [cat fst]. rewrite <- app_assoc. apply Hs.
+Qed.
+
+Lemma itemsR_tail : forall items pre rest, itemsR_ok items -> Rs items rest -> stop_ok A rest ->
+  parsed (PRepTail A) pre (cat items) rest (map snd items).
+Proof.
+  induction items as [|[t tt] r IH]; intros pre rest H HR [Hr Hstop].
+  - exists []. cbn [cat app length map]. rewrite Nat.add_0_r. split; [|reflexivity].
+    eapply evals_reptail_stop; [apply skip_none, Hr | apply Hstop].
+  - inversion H as [|x l Hit Hrest]; subst. destruct Hit as [Hs [Hne Hp]]. cbn [fst snd] in *.
+    destruct HR as [_ HR]. destruct (Hp pre (cat r ++ rest) (Rs_head r rest HR)) as [T1 [E1 A1]].
+    destruct (IH (pre ++ t) rest Hrest HR (conj Hr Hstop)) as [T2 [E2 A2]].
+    exists ([] ++ T1 ++ T2). cbn [cat fst]. split.
+    + rewrite <- app_assoc.
+      rewrite app_length in E2.
+      replace (length pre + length (t ++ cat r))%nat with (length pre + length t + length (cat r))%nat
+        by (rewrite app_length; lia).
+      eapply evals_reptail_step; [apply skip_none, Hs | exact E1 | | exact E2].
+      destruct t; [congruence | cbn [length]; lia].
+    + cbn [app map snd]. rewrite map_app.
+      replace (pre ++ (t ++ cat r) ++ rest) with (pre ++ t ++ cat r ++ rest) by norm_app.
+      rewrite A1.
+      replace (pre ++ t ++ cat r ++ rest) with ((pre ++ t) ++ cat r ++ rest) by norm_app.
+      rewrite A2. reflexivity.
+Qed.
+
+Lemma itemsR_rep : forall items pre rest, itemsR_ok items -> Rs items rest -> stop_ok A rest ->
+  parsed (PRep A) pre (cat items) rest (map snd items).
+Proof.
+  intros [|[t tt] r] pre rest H HR [Hr Hstop].
+  - exists []. cbn [cat app length map]. rewrite Nat.add_0_r. split; [|reflexivity].
+    apply evals_rep_none, Hstop.
+  - inversion H as [|x l Hit Hrest]; subst. destruct Hit as [Hs [Hne Hp]]. cbn [fst snd] in *.
+    destruct HR as [_ HR]. destruct (Hp pre (cat r ++ rest) (Rs_head r rest HR)) as [T1 [E1 A1]].
+    destruct (itemsR_tail r (pre ++ t) rest Hrest HR (conj Hr Hstop)) as [T2 [E2 A2]].
+    exists (T1 ++ T2). cbn [cat fst]. split.
+    + rewrite <- app_assoc. rewrite app_length in E2.
+      replace (length pre + length (t ++ cat r))%nat with (length pre + length t + length (cat r))%nat
+        by (rewrite app_length; lia).
+      eapply evals_rep_some; [exact E1 | exact E2].
+    + cbn [map snd]. rewrite map_app.
+      replace (pre ++ (t ++ cat r) ++ rest) with (pre ++ t ++ cat r ++ rest) by norm_app.
+      rewrite A1.
+      replace (pre ++ t ++ cat r ++ rest) with ((pre ++ t) ++ cat r ++ rest) by norm_app.
+      rewrite A2. reflexivity.
+Qed.
+
+End ItemsR.
+
+Notation EI := (PRef L_IF_ELSEIF_BR).
+
+Lemma elseif_head_parses pos cond rest : cond_ok cond = true ->
+  EV (PRef L_IF_ELSEIF_HEAD) AtNon pos (s_elseif ++ cond ++ 10 :: rest)
+     (POk (S (pos + 8 + length cond)) rest
+        [Node L_IF_ELSEIF_HEAD pos (S (pos + 8 + length cond)) [Node L_TEST (pos + 8) (pos + 8 + length cond) []]]).
+Proof.
+  intro H. eapply evals_ref_normal_ok; [reflexivity | reflexivity |].
+  change [Node L_TEST (pos + 8) (pos + 8 + length cond) []]
+    with ([] ++ [] ++ ([Node L_TEST (pos + 8) (pos + 8 + length cond) []] ++ [] ++ []))%list.
+  eapply evals_seq_ok.
+  - ref_s. apply evals_str_ok. apply strip_prefix_app_some.
+  - apply skip_none, cond_starts, H.
+  - eapply evals_seq_ok.
+    + apply test_parses, H.
+    + apply skip_none. reflexivity.
+    + apply then_do_fail.
+Qed.
+
+Definition elif_text (cond body : str) : str := s_elseif ++ cond ++ 10 :: body.
+Definition elif_tree (cond body : str) (btt : list ttree) : ttree :=
+  TNode L_IF_ELSEIF_BR (trim (s_elseif ++ cond ++ 10 :: body))
+    [TNode L_IF_ELSEIF_HEAD (trim (s_elseif ++ cond ++ [10])) [TNode L_TEST cond []]; TNode L_EXP_BODY (trim body) btt].
+
+Lemma elif_br_block pre cond body rest btt :
+  cond_ok cond = true -> starts_blank (body ++ rest) = false ->
+  parsed (PRef L_EXP_BODY) (pre ++ s_elseif ++ cond ++ [10]) body rest [TNode L_EXP_BODY (trim body) btt] ->
+  parsed EI pre (elif_text cond body) rest [elif_tree cond body btt].
+Proof.
+  intros Hc Hsb [Tb [EVb Ab]]. unfold elif_text.
+  set (src := pre ++ (s_elseif ++ cond ++ 10 :: body) ++ rest).
+  assert (Hsrc : (pre ++ s_elseif ++ cond ++ [10]) ++ body ++ rest = src) by (unfold src; norm_app).
+  rewrite Hsrc in Ab.
+  replace (length (pre ++ s_elseif ++ cond ++ [10])) with (S (length pre + 8 + length cond)) in EVb
+    by (repeat first [rewrite app_length | progress cbn [length]]; change (length s_elseif) with 8%nat; lia).
+  eexists. split.
+  - eapply evals_ref_normal_ok; [reflexivity | reflexivity |].
+    replace ((s_elseif ++ cond ++ 10 :: body) ++ rest) with (s_elseif ++ cond ++ 10 :: body ++ rest) by norm_app.
+    eapply evals_seq_ok; [apply elseif_head_parses, Hc | apply skip_none, Hsb |].
+    replace (length pre + length (s_elseif ++ cond ++ (10%N :: body)))%nat
+      with (S (length pre + 8 + length cond) + length body)%nat
+      by (repeat first [rewrite app_length | progress cbn [length]]; change (length s_elseif) with 8%nat; lia).
+    exact EVb.
+  - cbn [map app]. fold src.
+    rewrite (annotate_node_eq pre (s_elseif ++ cond ++ 10 :: body) rest) by first [solve [reflexivity] | solve [len_eq]].
+    unfold elif_tree. f_equal. f_equal.
+    cbn [map app]. rewrite ?app_nil_r. fold src. rewrite Ab. f_equal.
+    rewrite (annotate_node_eq pre (s_elseif ++ cond ++ [10]) (body ++ rest))
+      by first [solve [unfold src; norm_app] | solve [repeat first [rewrite app_length | progress cbn [length]]; change (length s_elseif) with 8%nat; lia]].
+    f_equal. cbn [map]. f_equal.
+    rewrite (annotate_node_eq (pre ++ s_elseif) cond (10 :: body ++ rest))
+      by first [solve [unfold src; norm_app] | solve [repeat first [rewrite app_length | progress cbn [length]]; change (length s_elseif) with 8%nat; lia]].
+    rewrite trim_cond by exact Hc. reflexivity.
+Qed.
+
+(** what may follow a body inside an `if`: the next arm, the else arm or fi *)
+Lemma X_stop_elseif pos x : EV X_body AtNon pos (s_elseif ++ x) PFail.
+Proof. apply (evals_of_ev l_grammar 40); [|discriminate]. destruct pos; vm_compute; reflexivity. Qed.
+Lemma stop_elseif x : stop_ok X_body (s_elseif ++ x).
+Proof. split; [reflexivity | intro pos; apply X_stop_elseif]. Qed.
+
+Lemma EI_stop_else pos x : EV EI AtNon pos (s_else ++ 10 :: x) PFail.
+Proof. ref_nf. apply evals_seq_fail. ref_nf. apply evals_seq_fail. ref_s. apply evals_str_fail. reflexivity. Qed.
+Lemma EI_stop_fi pos x : EV EI AtNon pos (s_fi ++ 10 :: x) PFail.
+Proof. ref_nf. apply evals_seq_fail. ref_nf. apply evals_seq_fail. ref_s. apply evals_str_fail. reflexivity. Qed.
+
+(** the general if: first branch, else-if arms (E, already parsed as a repetition), optional else arm (L) *)
+Lemma if_gen_block pre cond body E L rest btt etts ltts :
+  cond_ok cond = true ->
+  parsed (PRef L_IF_IF_BR) pre (s_if ++ cond ++ 10 :: body) (E ++ L ++ s_fi ++ 10 :: rest) [if_br_tree cond body btt] ->
+  parsed (PRep EI) (pre ++ (s_if ++ cond ++ 10 :: body)) E (L ++ s_fi ++ 10 :: rest) etts ->
+  parsed (POpt (PRef L_IF_ELSE_BR)) ((pre ++ (s_if ++ cond ++ 10 :: body)) ++ E) L (s_fi ++ 10 :: rest) ltts ->
+  starts_blank (E ++ L ++ s_fi ++ 10 :: rest) = false -> starts_blank (L ++ s_fi ++ 10 :: rest) = false ->
+  parsed (PRef L_EXP_IF) pre (s_if ++ cond ++ 10 :: body ++ E ++ L ++ s_fi ++ [10]) rest
+    [TNode L_EXP_IF (s_if ++ cond ++ 10 :: body ++ E ++ L ++ s_fi) (if_br_tree cond body btt :: etts ++ ltts)].
+Proof.
+  intros Hc [T1 [E1 A1]] [T2 [E2 A2]] [T3 [E3 A3]] Hs1 Hs2.
+  set (ifbr := s_if ++ cond ++ 10 :: body) in *.
+  set (src := pre ++ (s_if ++ cond ++ 10 :: body ++ E ++ L ++ s_fi ++ [10]) ++ rest).
+  assert (H1 : pre ++ ifbr ++ E ++ L ++ s_fi ++ 10 :: rest = src) by (unfold src, ifbr; norm_app).
+  assert (H2 : (pre ++ ifbr) ++ E ++ L ++ s_fi ++ 10 :: rest = src) by (unfold src, ifbr; norm_app).
+  assert (H3 : ((pre ++ ifbr) ++ E) ++ L ++ s_fi ++ 10 :: rest = src) by (unfold src, ifbr; norm_app).
+  rewrite H1 in A1. rewrite H2 in A2. rewrite H3 in A3.
+  rewrite app_length in E2. rewrite !app_length in E3.
+  eexists. split.
+  - eapply evals_ref_normal_ok; [reflexivity | reflexivity |].
+    replace ((s_if ++ cond ++ 10 :: body ++ E ++ L ++ s_fi ++ [10]) ++ rest)
+      with (ifbr ++ E ++ L ++ s_fi ++ 10 :: rest) by (unfold ifbr; norm_app).
+    eapply evals_seq_ok; [apply opt_soi | apply skip_none; reflexivity |].
+    eapply evals_seq_ok; [exact E1 | apply skip_none, Hs1 |].
+    eapply evals_seq_ok; [exact E2 | apply skip_none, Hs2 |].
+    eapply evals_seq_ok; [exact E3 | apply skip_none; reflexivity |].
+    replace (length pre + length (s_if ++ cond ++ (10%N :: body ++ E ++ L ++ s_fi ++ [10%N])))%nat
+      with (length pre + length ifbr + length E + length L + 3)%nat by (unfold ifbr; len_eq).
+    apply kw_fi_ok.
+  - cbn [map app]. fold src.
+    rewrite (annotate_node_eq pre (s_if ++ cond ++ 10 :: body ++ E ++ L ++ s_fi ++ [10]) rest) by first [solve [reflexivity] | solve [len_eq]].
+    f_equal. f_equal.
+    + replace (s_if ++ cond ++ 10 :: body ++ E ++ L ++ s_fi ++ [10]) with ((s_if ++ cond ++ 10 :: body ++ E ++ L ++ s_fi) ++ [10]) by norm_app.
+      apply trim_line; [reflexivity|].
+      replace (s_if ++ cond ++ 10 :: body ++ E ++ L ++ s_fi) with ((s_if ++ cond ++ 10 :: body ++ E ++ L) ++ [102] ++ [105]) by norm_app.
+      apply ends_nonws_app. reflexivity.
+    + cbn [map app]. rewrite ?app_nil_r. rewrite !map_app. fold src. rewrite A1, A2, A3. reflexivity.
+Qed.
+
+(** ================= the fragment: induction over the syntax tree ================= *)
+Lemma nonempty_items b : nonempty_block b = true -> exists it r, items_of_block b = it :: r.
+Proof. destruct b as [|s r]; [discriminate|]. intros _. eexists. eexists. reflexivity. Qed.
+
+(** for as an item *)
+Lemma for_parsed pre var words it r rest : wfp_var var = true -> cond_ok words = true -> items_ok X_body (it :: r) ->
+  parsed (PRef L_EXP_FOR) pre (for_text var words (cat (it :: r))) rest [for_tree var words (cat (it :: r)) (map snd (it :: r))].
+Proof.
+  intros Hv Hw Hi. apply for_block; [exact Hv | exact Hw | apply cat_start with (A := X_body); [exact Hi | reflexivity] |].
+  apply exp_body_items; [exact Hi | apply stop_done].
+Qed.
+
+Lemma render_for_eq var words body : render_stmt (SFor [] false var words body) = for_text var words (render_block body).
+Proof.
+  change (render_stmt (SFor [] false var words body))
+    with ([] ++ (s_for ++ var ++ s_in ++ words ++ [10] ++ render_block body ++ [] ++ s_done) ++ [10]).
+  unfold for_text. norm_app.
+Qed.
+Lemma tree_for_eq var words body :
+  tree_of_stmt (SFor [] false var words body) = for_tree var words (render_block body) (kids_of_block body).
+Proof. reflexivity. Qed.
+
+(** the arms of an if: else-if items, then the optional else part *)
+Fixpoint elif_items (a : arms) : list (str * ttree) :=
+  match a with
+  | AElif _ _ cond body r =>
+      (elif_text cond (render_block body), elif_tree cond (render_block body) (kids_of_block body)) :: elif_items r
+  | _ => []
+  end.
+Fixpoint else_text (a : arms) : str :=
+  match a with
+  | AElif _ _ _ _ r => else_text r
+  | AElse _ body _ => s_else ++ 10 :: render_block body
+  | ANone _ => []
+  end.
+Fixpoint else_trees (a : arms) : list ttree :=
+  match a with
+  | AElif _ _ _ _ r => else_trees r
+  | AElse _ body _ => [else_br_tree (render_block body) (kids_of_block body)]
+  | ANone _ => []
+  end.
+
+Lemma core_arms_eq : forall a, frag_arms a = true -> core_arms a = cat (elif_items a) ++ else_text a ++ s_fi.
+Proof.
+  fix IH 1. intros [i|i body j|i sp cond body r] H.
+  - destruct i; [reflexivity | discriminate H].
+  - destruct i; [|discriminate H]. destruct j; [|destruct body; discriminate H].
+    change (core_arms (AElse [] body [])) with ([] ++ s_else ++ [10] ++ render_block body ++ [] ++ s_fi).
+    cbn [elif_items cat else_text]. norm_app.
+  - destruct i; [|discriminate H]. destruct sp; [discriminate H|].
+    change (frag_arms (AElif [] false cond body r)) with (cond_ok cond && nonempty_block body && frag_block body && frag_arms r) in H.
+    apply andb_prop in H as [_ Hr].
+    change (core_arms (AElif [] false cond body r)) with ([] ++ s_elseif ++ cond ++ [10] ++ render_block body ++ core_arms r).
+    rewrite (IH r Hr). cbn [elif_items cat fst else_text]. unfold elif_text. norm_app.
+Qed.
+
+Lemma nodes_arms_eq : forall a, frag_arms a = true -> nodes_of_arms a = map snd (elif_items a) ++ else_trees a.
+Proof.
+  fix IH 1. intros [i|i body j|i sp cond body r] H.
+  - reflexivity.
+  - destruct i; [|discriminate H]. destruct j; [|destruct body; discriminate H]. reflexivity.
+  - destruct i; [|discriminate H]. destruct sp; [discriminate H|].
+    change (frag_arms (AElif [] false cond body r)) with (cond_ok cond && nonempty_block body && frag_block body && frag_arms r) in H.
+    apply andb_prop in H as [_ Hr].
+    rewrite ScriptProofs.nodes_elif. rewrite (IH r Hr). reflexivity.
+Qed.
+
+Lemma parsed_opt_some a pre text rest tt : parsed a pre text rest tt -> parsed (POpt a) pre text rest tt.
+Proof. intros [Ts [H1 H2]]. exists Ts. split; [apply evals_opt_some, H1 | exact H2]. Qed.
+
+Notation Rx := (stop_ok X_body).
+
 Definition Q_block (b : block) : Prop :=
   frag_block b = true -> items_ok X_body (items_of_block b) /\ items_ok Y_top (items_of_block b).
 Definition Q_stmt (s : stmt) : Prop :=
@@ -565,13 +972,17 @@ Definition Q_stmt (s : stmt) : Prop :=
   item_ok X_body (render_stmt s) (tree_of_stmt s) /\ item_ok Y_top (render_stmt s) (tree_of_stmt s).
 Definition Q_arms (a : arms) : Prop :=
   frag_arms a = true ->
-  match a with
-  | AElse _ body _ => items_ok X_body (items_of_block body)
-  | _ => True
-  end.
+  itemsR_ok EI Rx (elif_items a) /\
+  (forall rest, Rs Rx (elif_items a) (else_text a ++ s_fi ++ 10 :: rest)) /\
+  (forall rest, stop_ok EI (else_text a ++ s_fi ++ 10 :: rest)) /\
+  (forall pre rest, parsed (POpt (PRef L_IF_ELSE_BR)) pre (else_text a) (s_fi ++ 10 :: rest) (else_trees a)).
 
-Lemma nonempty_items b : nonempty_block b = true -> exists it r, items_of_block b = it :: r.
-Proof. destruct b as [|s r]; [discriminate|]. intros _. eexists. eexists. reflexivity. Qed.
+Lemma body_parsed pre it r rest : items_ok X_body (it :: r) -> Rx rest ->
+  starts_blank (cat (it :: r) ++ rest) = false /\
+  parsed (PRef L_EXP_BODY) pre (cat (it :: r)) rest [TNode L_EXP_BODY (trim (cat (it :: r))) (map snd (it :: r))].
+Proof.
+  intros Hi HR. split; [apply cat_start with (A := X_body); [exact Hi | apply HR] | apply exp_body_items; assumption].
+Qed.
 
 Lemma frag_all : (forall b, Q_block b) /\ (forall s, Q_stmt s) /\ (forall a, Q_arms a).
 Proof.
@@ -596,22 +1007,49 @@ Proof.
     change (frag_stmt (SIf [] false cond body rest)) with (cond_ok cond && nonempty_block body && frag_block body && frag_arms rest) in H.
     apply andb_prop in H as [H Ha]. apply andb_prop in H as [H Hb]. apply andb_prop in H as [Hc Hne].
     destruct (IHb Hb) as [BX _]. destruct (nonempty_items body Hne) as [it [r Eit]].
-    destruct rest as [i|i body2 j|]; try discriminate Ha.
-    + destruct i; [|discriminate Ha].
-      rewrite render_if_eq, tree_if_eq. rewrite <- (items_cat body), <- (items_kids body). rewrite Eit in *.
-      split; (split; [intro; reflexivity|]; split; [discriminate|]); intros pre rest0.
-      * apply if_alts_X; [eexists; reflexivity | apply if_parsed; assumption].
-      * apply if_alts_Y, if_parsed; assumption.
-    + destruct i; [|discriminate Ha]. destruct j; [|destruct body2; discriminate Ha].
-      pose proof (IHa Ha) as B2X. cbn beta iota in B2X.
-      change (frag_arms (AElse [] body2 [])) with (nonempty_block body2 && frag_block body2) in Ha.
-      apply andb_prop in Ha as [Hne2 _]. destruct (nonempty_items body2 Hne2) as [it2 [r2 Eit2]].
-      rewrite render_ifelse_eq, tree_ifelse_eq.
-      rewrite <- (items_cat body), <- (items_kids body), <- (items_cat body2), <- (items_kids body2). rewrite Eit, Eit2 in *.
-      split; (split; [intro; reflexivity|]; split; [discriminate|]); intros pre rest0.
-      * apply if_alts_X; [eexists; reflexivity | apply ifelse_parsed; assumption].
-      * apply if_alts_Y, ifelse_parsed; assumption.
-  - (* SFor *) intros ind sp var words body IHb H. destruct ind; discriminate H.
+    destruct (IHa Ha) as [A1 [A2 [A3 A4]]].
+    assert (Etext : render_stmt (SIf [] false cond body rest) =
+                    s_if ++ cond ++ 10 :: cat (it :: r) ++ cat (elif_items rest) ++ else_text rest ++ s_fi ++ [10]).
+    { change (render_stmt (SIf [] false cond body rest)) with ([] ++ (s_if ++ cond ++ [10] ++ render_block body ++ core_arms rest) ++ [10]).
+      rewrite (core_arms_eq rest Ha), <- Eit, items_cat. norm_app. }
+    assert (Etree : tree_of_stmt (SIf [] false cond body rest) =
+                    TNode L_EXP_IF (s_if ++ cond ++ 10 :: cat (it :: r) ++ cat (elif_items rest) ++ else_text rest ++ s_fi)
+                      (if_br_tree cond (cat (it :: r)) (map snd (it :: r)) :: map snd (elif_items rest) ++ else_trees rest)).
+    { rewrite ScriptProofs.tree_if. rewrite (nodes_arms_eq rest Ha). rewrite <- Eit, items_cat, items_kids.
+      change (core_stmt (SIf [] false cond body rest)) with (s_if ++ cond ++ [10] ++ render_block body ++ core_arms rest).
+      rewrite (core_arms_eq rest Ha). unfold if_br_tree, body_node.
+      f_equal; norm_app. }
+    rewrite Eit in BX.
+    assert (P : forall pre rest0, parsed (PRef L_EXP_IF) pre (render_stmt (SIf [] false cond body rest)) rest0 [tree_of_stmt (SIf [] false cond body rest)]).
+    { intros pre rest0. rewrite Etext, Etree.
+      pose proof (A2 rest0) as HRs. pose proof (Rs_head Rx _ _ HRs) as HR1.
+      destruct (body_parsed (pre ++ s_if ++ cond ++ [10]) it r _ BX HR1) as [Hsb Hbody].
+      apply if_gen_block.
+      - exact Hc.
+      - apply if_br_block; assumption.
+      - apply (itemsR_rep EI Rx); [exact A1 | exact HRs | apply A3].
+      - apply A4.
+      - apply HR1.
+      - apply (A3 rest0).
+    }
+    split; (split; [intro; rewrite Etext; reflexivity|]; split; [rewrite Etext; discriminate|]); intros pre rest0.
+    + apply if_alts_X; [rewrite Etext; eexists; reflexivity | apply P].
+    + apply if_alts_Y, P.
+  - (* SFor *) intros ind sp var words body IHb H.
+    destruct ind; [|discriminate H]. destruct sp; [discriminate H|].
+    change (frag_stmt (SFor [] false var words body)) with (wfp_var var && cond_ok words && nonempty_block body && frag_block body) in H.
+    apply andb_prop in H as [H Hb]. apply andb_prop in H as [H Hne]. apply andb_prop in H as [Hv Hw].
+    destruct (IHb Hb) as [BX _]. destruct (nonempty_items body Hne) as [it [r Eit]].
+    rewrite render_for_eq, tree_for_eq. rewrite <- (items_cat body), <- (items_kids body). rewrite Eit in *.
+    split; (split; [intro; reflexivity|]; split; [discriminate|]); intros pre rest0.
+    + unfold X_body.
+      apply parsed_alt_r; [eapply cmd_fails_kw; unfold for_text; rewrite <- app_assoc; apply kw_list_for|].
+      apply parsed_alt_r; [apply exp_if_fails; reflexivity|].
+      apply parsed_alt_r; [apply exp_while_fails; reflexivity|].
+      apply for_parsed; assumption.
+    + unfold Y_top.
+      apply parsed_alt_r; [apply exp_if_fails; reflexivity|].
+      apply parsed_alt_l. apply for_parsed; assumption.
   - (* SWhile *) intros ind sp cond body IHb H.
     destruct ind; [|discriminate H]. destruct sp; [discriminate H|].
     change (frag_stmt (SWhile [] false cond body)) with (cond_ok cond && nonempty_block body && frag_block body) in H.
@@ -619,12 +1057,42 @@ Proof.
     destruct (IHb Hb) as [BX _]. destruct (nonempty_items body Hne) as [it [r Eit]].
     rewrite render_while_eq, tree_while_eq. rewrite <- (items_cat body), <- (items_kids body). rewrite Eit in *.
     split; [apply while_item_X | apply while_item_Y]; assumption.
-  - (* ANone *) intros ind _. exact I.
+  - (* ANone *) intros ind H. destruct ind; [|discriminate H]. cbn [elif_items else_text else_trees app].
+    split; [constructor|]. split; [intro rest; split; [apply stop_fi | exact I]|].
+    split; [intro rest; split; [reflexivity | intro pos; apply EI_stop_fi]|].
+    intros pre rest. exists []. cbn [app length map]. rewrite Nat.add_0_r. split; [|reflexivity].
+    apply else_opt_none. reflexivity.
   - (* AElse *) intros ind body IHb ind_fi H.
     destruct ind; [|discriminate H]. destruct ind_fi; [|destruct body; discriminate H].
     change (frag_arms (AElse [] body [])) with (nonempty_block body && frag_block body) in H.
-    apply andb_prop in H as [_ Hb]. apply (IHb Hb).
-  - (* AElif *) intros ind sp cond body IHb rest IHa H. discriminate H.
+    apply andb_prop in H as [Hne Hb]. destruct (IHb Hb) as [BX _].
+    destruct (nonempty_items body Hne) as [it [r Eit]].
+    cbn [elif_items else_text else_trees].
+    split; [constructor|].
+    split; [intro rest; split; [rewrite <- app_assoc; apply stop_else | exact I]|].
+    split; [intro rest; rewrite <- app_assoc; split; [reflexivity | intro pos; apply EI_stop_else]|].
+    intros pre rest. apply parsed_opt_some.
+    rewrite <- (items_cat body), <- (items_kids body). rewrite Eit in *.
+    destruct (body_parsed (pre ++ s_else ++ [10]) it r _ BX (stop_fi rest)) as [Hsb Hbody].
+    apply else_br_block; assumption.
+  - (* AElif *) intros ind sp cond body IHb rest IHa H.
+    destruct ind; [|discriminate H]. destruct sp; [discriminate H|].
+    change (frag_arms (AElif [] false cond body rest)) with (cond_ok cond && nonempty_block body && frag_block body && frag_arms rest) in H.
+    apply andb_prop in H as [H Ha]. apply andb_prop in H as [H Hb]. apply andb_prop in H as [Hc Hne].
+    destruct (IHb Hb) as [BX _]. destruct (nonempty_items body Hne) as [it [r Eit]].
+    destruct (IHa Ha) as [A1 [A2 [A3 A4]]].
+    cbn [elif_items else_text else_trees].
+    rewrite <- (items_cat body), <- (items_kids body). rewrite Eit in *.
+    split.
+    { constructor; [|exact A1]. cbn [fst snd].
+      split; [intro; reflexivity|]. split; [discriminate|].
+      intros pre rest0 HR.
+      destruct (body_parsed (pre ++ s_elseif ++ cond ++ [10]) it r _ BX HR) as [Hsb Hbody].
+      apply elif_br_block; assumption. }
+    split.
+    { intro rest0. split; [|apply A2].
+      cbn [cat fst]. unfold elif_text. rewrite <- !app_assoc. apply stop_elseif. }
+    split; [exact A3 | exact A4].
 Qed.
 
 (** ---- ideal trees hold no EOI pair ---- *)
@@ -704,3 +1172,4 @@ Proof.
     rewrite (ev_mono_le l_grammar _ _ _ _ _ _ _ E) in H1; [|discriminate|apply Nat.le_max_r].
     injection H1 as -> -> ->. exists (length (render_block b)), kids. split; [exact E | exact Hk].
 Qed.
+
